@@ -196,7 +196,7 @@ func maxCommon(a, b []kmip.ProtocolVersion) *kmip.ProtocolVersion {
 func runC13(c *vlib.Check) {
 	c.Rule = "exhaustive product of configurations: 31 non-empty client subsets of {1.0..1.4} x 32 server subsets x server behaviours {real BatchExecutor with default versions, real executor after " +
 		"SetSupportedProtocolVersions, discovery unsupported, scripted server listing descending / ascending / every permutation (sets <=3) / versions the client did not offer / empty list} x " +
-		"{not enforced, enforced (5 values)}; each cell = one DialContext + one follow-up request over an in-process pipe; reference = max(client ∩ server). distinct = distinct cells"
+		"{not enforced, enforced (5 values)}; each cell = one DialContext + one follow-up request over an in-process pipe; reference = max(client ∩ server); option histories (one Option value reused across two Dials) and server histories (every ordered pair of client sets negotiating one after the other with one real executor, 8 server configurations). distinct = distinct cells"
 	c.Assumptions = []string{"the quantifier is over configurations, not schedules: each cell is a single deterministic exchange",
 		"when a real executor restricted to a set without 1.1 rejects the (1.1-framed) discovery request for its version, a failed connection is accepted; a wrong adopted version is not"}
 	type cell struct {
@@ -349,6 +349,57 @@ func runC13(c *vlib.Check) {
 			case seen == nil || *seen != *adopted:
 				c.Violation("follow-up-header-version", fmt.Sprintf("%s: follow-up carried %v", label, seen), rep)
 			}
+		}
+	})
+	// server-history part: two successive clients (every ordered pair of configured sets) negotiate with ONE real executor;
+	// what the first client asked for must not change what the second one gets
+	type shist struct{ s1, s2, sv int }
+	var sh []shist
+	for s1 := 1; s1 < 32; s1++ {
+		for s2 := 1; s2 < 32; s2++ {
+			for _, sv := range []int{0, 31, 30, 27, 21, 10, 6, 2} { // 0 = executor left on its default versions
+				sh = append(sh, shist{s1, s2, sv})
+			}
+		}
+	}
+	var shMu sync.Mutex // executors left on their defaults share package-level state: those histories run one at a time
+	vlib.Parallel(len(sh), 0, func(i int) {
+		h := sh[i]
+		svSet := subset(h.sv)
+		var srv c13server
+		if h.sv == 0 {
+			shMu.Lock()
+			defer shMu.Unlock()
+			svSet = allVersions
+			srv = realExecutor("real-executor-default", svSet, false)
+		} else {
+			srv = realExecutor("real-executor-set-versions", svSet, true)
+		}
+		label := fmt.Sprintf("server history: one %s%s serves a client configured with %s and then one configured with %s", srv.name, vstr(svSet), vstr(subset(h.s1)), vstr(subset(h.s2)))
+		c.Eval([]byte(label), true)
+		rep := map[string]any{"kind": "negotiation-history", "cell": label}
+		if _, _, _, pv := c13Dial([]kmipclient.Option{kmipclient.WithKmipVersions(subset(h.s1)...)}, srv); pv != nil {
+			c.Violation("panic:server-history", fmt.Sprintf("%s: %v", label, pv), rep)
+			return
+		}
+		adopted, seen, derr, pv := c13Dial([]kmipclient.Option{kmipclient.WithKmipVersions(subset(h.s2)...)}, srv)
+		if pv != nil {
+			c.Violation("panic:server-history", fmt.Sprintf("%s: %v", label, pv), rep)
+			return
+		}
+		want := maxCommon(subset(h.s2), svSet)
+		if !containsV(svSet, kmip.V1_1) && derr != nil {
+			return // see the assumption about executors that do not speak 1.1
+		}
+		switch {
+		case want == nil && derr == nil:
+			c.Violation("server-history:connected-without-common-version", fmt.Sprintf("%s: second client connected with %v", label, *adopted), rep)
+		case want != nil && derr != nil:
+			c.Violation("server-history:dial-failed-with-common-version", fmt.Sprintf("%s: second dial failed (%v) although %v is common", label, derr, *want), rep)
+		case want != nil && *adopted != *want:
+			c.Violation("server-history:not-highest-common", fmt.Sprintf("%s: second client adopted %v, highest common version is %v", label, *adopted, *want), rep)
+		case want != nil && (seen == nil || *seen != *adopted):
+			c.Violation("follow-up-header-version", fmt.Sprintf("%s: follow-up carried %v", label, seen), rep)
 		}
 	})
 	c.Exhaustive = true
